@@ -7,6 +7,7 @@ import (
 	"go/types"
 	"os"
 	"path/filepath"
+	"runtime/pprof"
 	"sort"
 	"strconv"
 	"strings"
@@ -122,7 +123,7 @@ func solverBin() string {
 	if b := os.Getenv("SYMGO_SOLVER"); b != "" {
 		return b
 	}
-	return "z3"
+	return "z3-new"
 }
 
 func runEntry(prog *ssa.Program, pkg *ssa.Package, cfg EntryCfg, kf []KnownFinding) (res *EntryResult) {
@@ -185,7 +186,11 @@ func cmdCheck(id string, args []string) int {
 	}
 	seed, _ := strconv.Atoi(os.Getenv("VERIF_SEED"))
 	root := verifRoot()
-	evPath := filepath.Join(root, "evidence", id+".json")
+	outRoot := root
+	if o := os.Getenv("SYMGO_OUT"); o != "" {
+		outRoot = o // scratch runs (e.g. against a worktree with a seeded change) keep /verif/evidence and /verif/replays untouched
+	}
+	evPath := filepath.Join(outRoot, "evidence", id+".json")
 	os.Remove(evPath)
 	d, err := loadDescriptor(root, id)
 	if err != nil {
@@ -209,6 +214,16 @@ func cmdCheck(id string, args []string) int {
 		return 2
 	}
 	loadT := time.Since(t0)
+	if pf := os.Getenv("SYMGO_PROF"); pf != "" {
+		f, _ := os.Create(pf)
+		pprof.StartCPUProfile(f)
+		go func() {
+			time.Sleep(30 * time.Second)
+			pprof.StopCPUProfile()
+			f.Close()
+			fmt.Fprintln(os.Stderr, "profile written")
+		}()
+	}
 	var entries []EntryCfg
 	for _, e := range d.Entries {
 		if inTier(e, tier) && (only == "" || e.Fn == only) {
@@ -317,7 +332,7 @@ func cmdCheck(id string, args []string) int {
 				inconclusive = append(inconclusive, fmt.Sprintf("%s: counterexample for %s %q did not reproduce natively (nd=%v) — encoding or model suspect", fn, v.Kind, v.Label, v.ND))
 				continue
 			}
-			p := writeReplay(root, d, r.Cfg, tier, v)
+			p := writeReplay(outRoot, d, r.Cfg, tier, v)
 			violLines = append(violLines, fmt.Sprintf("VIOLATION property=%s replay=%s", id, p))
 			notes = append(notes, fmt.Sprintf("  %s: %s %q in %s (nd=%v, %d paths)", fn, v.Kind, v.Label, v.Fn, v.ND, v.Count))
 			nViol++
